@@ -168,6 +168,8 @@ def api_oracle(files, ref_out, text, org):
             if o != (prov[1], prov[2]):
                 return "byte %d (%r) copied from %s:%d but origin says %r" % (i, chr(ch), prov[1], prov[2], o)
         elif prov[0] == "macro":
+            if prov[1] == "<macro>":
+                continue      # defined by expanding another macro: the standard does not say where that text lives
             if prov[1] is None:
                 if o is not None:
                     return "byte %d from a caller-supplied macro has origin %r" % (i, o)
@@ -198,20 +200,19 @@ def api_oracle(files, ref_out, text, org):
 def api_level(ctx, n):
     r = ctx.rng
     progs, cases = {}, []
+    import ppx
     for i in range(n):
-        g = ppgen.Gen(r, max_depth=2)
+        g = ppgen.Gen(r, max_depth=2, scenarios=(i % 3 == 2), pos=(i % 3 != 2))
         files = g.program()
         texts = ppgen.render(files)
-        c = Case("p%d" % i)
-        for p, t in texts.items():
-            c.add("file", hx(p), hx(t))
-        c.add("want", "text", "origins")
-        c.add("run", "preprocess", hx("top.sv"))
+        pc = ppx.PC(texts, predefs=ppx.predefs_random(r) if i % 3 == 2 else [], meta=files)
+        ppx.twin_predef(r, pc)
+        c = pc.case("p%d" % i, ("text", "origins"))
         cases.append(c)
-        progs[c.id] = (files, texts)
+        progs[c.id] = (files, texts, pc)
     impl = run_harness("api", cases, "c03api")
     bad = None
-    for cid, (files, texts) in progs.items():
+    for cid, (files, texts, pc) in progs.items():
         lines = impl.get(cid, [])
         ctx.corr_cases += 1
         if "ok" not in lines:
@@ -219,7 +220,7 @@ def api_level(ctx, n):
             continue
         text = unhx([l for l in lines if l.startswith("text ")][0].split()[1])
         org = parse_origins([l for l in lines if l.startswith("origins")][0])
-        ref = ppgen.Ref(files, {})
+        ref = ppgen.Ref(files, ppx.ref_predefs(pc))
         try:
             ref.eval_file("top.sv")
         except ppgen.RefError:
@@ -233,14 +234,14 @@ def api_level(ctx, n):
         if len(text) > 8:
             ctx.corr_nontrivial.add(sha(repr(sorted(texts.items()))))
         if why and bad is None:
-            bad = (cid, why, texts)
+            bad = (cid, why, texts, pc)
     if progs:
         k = sorted(progs)[0]
         ctx.sample({"files": progs[k][1], "impl": impl.get(k)})
     if bad:
         rp = write_replay(ctx, "pp-" + sha(repr(bad[2]))[:8], {
             "property": "C03", "kind": "preprocess(top.sv) then origin(i) for every i",
-            "files": bad[2], "why": bad[1], "replay": "bin/vcheck C03 --replay <this file>"})
+            "files": bad[2], "predefs": bad[3].predefs, "why": bad[1], "replay": "bin/vcheck C03 --replay <this file>"})
         ctx.viol.append(Violation("origin lookup disagrees with where the byte came from: " + bad[1], rp))
     ctx.obl("search-oracle:per-position provenance on generated programs", "oracle", bad is None,
             bad[1] if bad else "")
@@ -308,10 +309,8 @@ def replay(ctx, path):
         ops = [fix(o) for o in ops]
         why = ops_oracle(ops, run_harness("originops", [ops_case("s", ops)], "c03rp").get("s"))
     elif "files" in d:
-        c = Case("r")
-        for p, t in d["files"].items():
-            c.add("file", hx(p), hx(t))
-        c.add("want", "text", "origins").add("run", "preprocess", hx("top.sv"))
+        import ppx
+        c = ppx.PC(d["files"], predefs=[tuple(x) for x in d.get("predefs", [])]).case("r", ("text", "origins"))
         print("\n".join(run_harness("api", [c], "c03rp").get("r", [])))
         why = d.get("why")
     else:
